@@ -65,91 +65,41 @@ def update(self):
 '''
 
 
-def _no_early_exit(stmts, before) -> bool:
-    """No continue/break/return in `stmts` that textually precedes node `before`."""
-    for s in stmts:
-        for n in ast.walk(s):
-            if isinstance(n, (ast.Continue, ast.Break, ast.Return)) and n.lineno < before.lineno:
-                return False
-    return True
+REF_EXERCISE = '''
+def check_option_exercise(self):
+    now = self._market_status.timestamp
+    expired = []
+    for key in self.positions:
+        pos = self.positions[key]
+        if pos.expiry_time > now:
+            continue
+        if pos.instrument_name in self._market_status.data.index:
+            instrument = self._market_status.data.loc[pos.instrument_name]
+        else:
+            instrument = InstrumentStatus(mark_price=0, underlying_price=self._price_status[self.token.name])
+        if pos.type == OptionKind.put:
+            if pos.strike_price > instrument.underlying_price:
+                self._deliver_option(pos, instrument, False)
+        elif pos.type == OptionKind.call:
+            if instrument.underlying_price > pos.strike_price:
+                self._deliver_option(pos, instrument, True)
+        expired.append(key)
+    for key in expired:
+        del self.positions[key]
+'''
 
 
 def exercise_shape(model, res):
-    f = model.func("DeribitOptionMarket.check_option_exercise")
-    loops = [s for s in f.node.body if isinstance(s, ast.For)]
-    if len(loops) != 2:
-        raise AnalysisError("C16: check_option_exercise: expected a settle loop and a removal loop")
-    settle, removal = loops
-    # --- settle loop
-    okshape = isinstance(settle.iter, ast.Call) and ast.unparse(settle.iter) == "self.positions.items()"
-    guards = [s for s in settle.body if isinstance(s, ast.If)]
-    if not okshape or len(guards) != 1 or len(settle.body) != 1:
-        raise AnalysisError("C16: settle loop shape not recognised (one `if expired:` over self.positions.items())")
-    g = guards[0]
-    t = g.test
-    posvar = settle.target.elts[1].id if isinstance(settle.target, ast.Tuple) else None
-    keyvar = settle.target.elts[0].id if isinstance(settle.target, ast.Tuple) else None
-    exp_ok = (isinstance(t, ast.Compare) and len(t.ops) == 1 and (
-        (isinstance(t.ops[0], ast.GtE) and ast.unparse(t.left) == "self._market_status.timestamp"
-         and ast.unparse(t.comparators[0]) == f"{posvar}.expiry_time")
-        or (isinstance(t.ops[0], ast.LtE) and ast.unparse(t.comparators[0]) == "self._market_status.timestamp"
-            and ast.unparse(t.left) == f"{posvar}.expiry_time")))
-    res.ob("R-ORD", "expiry test is `now >= expiry`", f.loc(g), ok=exp_ok, detail=ast.unparse(t))
-    if not exp_ok:
-        res.find("R-ORD", f.qualname, f"expiry test `{ast.unparse(t)}`", f.loc(g),
-                 f"positions are settled when `{ast.unparse(t)}`; the statement requires the first open bar at or after "
-                 f"expiry (now >= expiry), nothing before")
-    # every expired key appended, unconditionally, at statement level of the guard body
-    listvar = None
-    app = None
-    for s in g.body:
-        if isinstance(s, ast.Expr) and isinstance(s.value, ast.Call) and isinstance(s.value.func, ast.Attribute) \
-                and s.value.func.attr == "append" and len(s.value.args) == 1 and ast.unparse(s.value.args[0]) == keyvar:
-            listvar = ast.unparse(s.value.func.value)
-            app = s
-    must_append = app is not None and _no_early_exit(g.body, app) and not g.orelse
-    res.ob("R-DOM", "every expired position key is appended to the removal list on every path", f.loc(g), ok=must_append)
-    if not must_append:
-        res.find("R-DOM", f.qualname, "expired key not always scheduled for removal", f.loc(g),
-                 "inside the expiry guard the position key is not appended to the removal list on every path "
-                 "(an expired position could be settled again on a later bar)")
-    # delivery direction
-    deliv = [n for n in ast.walk(g) if isinstance(n, ast.Call) and ast.unparse(n.func) == "self._deliver_option"]
-    dir_ok = len(deliv) == 2
-    seen_kinds = set()
-    for branch in [n for n in ast.walk(g) if isinstance(n, ast.If) and n is not g]:
-        txt = ast.unparse(branch.test)
-        calls = [c for s in branch.body for c in ast.walk(s) if isinstance(c, ast.Call) and ast.unparse(c.func) == "self._deliver_option"]
-        if not calls:
-            continue
-        flag = ast.unparse(calls[0].args[2]) if len(calls[0].args) > 2 else "?"
-        if "OptionKind.put" in txt:
-            seen_kinds.add("put")
-            good = flag == "False" and (f"{posvar}.strike_price > instrument.underlying_price" in txt
-                                        or f"instrument.underlying_price < {posvar}.strike_price" in txt)
-        elif "OptionKind.call" in txt:
-            seen_kinds.add("call")
-            good = flag == "True" and (f"{posvar}.strike_price < instrument.underlying_price" in txt
-                                       or f"instrument.underlying_price > {posvar}.strike_price" in txt)
-        else:
-            good = False
-        dir_ok = dir_ok and good
-        res.ob("R-SIGN", f"in-the-money guard `{txt}` delivers with is_call={flag}", f.loc(branch), ok=good)
-        if not good:
-            res.find("R-SIGN", f.qualname, f"delivery under `{txt}` with is_call={flag}", f.loc(branch),
-                     f"delivery guard `{txt}` / is_call={flag} does not match: puts pay when strike > underlying "
-                     f"(is_call False), calls when strike < underlying (is_call True)")
-    if seen_kinds != {"put", "call"}:
-        raise AnalysisError("C16: put/call delivery branches not recognised")
-    # --- removal loop
-    rem_ok = isinstance(removal.iter, ast.Name) and removal.iter.id == listvar and isinstance(removal.target, ast.Name)
-    dels = [s for s in removal.body if isinstance(s, ast.Delete) and ast.unparse(s.targets[0]) == f"self.positions[{removal.target.id}]"]
-    rem_ok = rem_ok and len(dels) == 1 and _no_early_exit(removal.body, dels[0])
-    res.ob("R-DOM", "every scheduled key is deleted from the positions in the same invocation", f.loc(removal), ok=rem_ok)
-    if not rem_ok:
-        res.find("R-DOM", f.qualname, "scheduled key not always deleted", f.loc(removal),
-                 "the removal loop does not delete every scheduled position unconditionally (continue/break before the "
-                 "`del`, or the loop does not iterate the removal list): a delivered position can stay and be paid again")
+    """Settlement = the reference procedure, as canonical per-position effect blocks (value numbering, no text matching):
+    a position is touched iff now >= expiry; in-the-money puts (strike > underlying) are delivered with is_call False,
+    calls (underlying > strike) with True, nothing else is delivered; every expired key - and only those - goes into the
+    removal list, and the second loop deletes exactly the keys of that list.  The list is a loop-carried local, so the
+    second loop's source is tied to what the first loop appended."""
+    effects_check(res, model, "DeribitOptionMarket.check_option_exercise", REF_EXERCISE,
+                  "settle iff now >= expiry; deliver iff in the money with the matching direction; every expired "
+                  "position, and only those, is removed in the same invocation",
+                  ["_deliver_option", "_record_action"], opaque=["round_decimal", "_deliver_option"],
+                  ignore_calls=("_record_action",), rule="R-DOM")
 
 
 def effect_rule(model, res):
@@ -203,7 +153,7 @@ def run(model, tier="quick"):
     effects_check(res, model, "DeribitOptionMarket.update", REF_UPDATE, "settlement runs only on open bars",
                   ["check_option_exercise"], opaque=["_is_open"])
     effect_rule(model, res)
-    res.floor("obligations", len(res.obligations), 14)
+    res.floor("obligations", len(res.obligations), 11)
     res.assumptions = ["the delivery fee rate constant (0.00015) is checked under C15's R-CONST",
                        "data gaps at expiry use the fallback instrument built from the price series (not decided)"]
     res.not_decided = ["behaviour when the expiring instrument is missing from the book (fallback instrument, data dependent)"]
